@@ -29,7 +29,7 @@ VALCODES = {
     'L': dict(ext=[-2**63, 2**63 - 1, 0], mid=[7, 9, 11]),
     'U': dict(ext=[0, 2**32 - 1, 5], mid=[7, 9, 11]),
     'Q': dict(ext=[0, 2**64 - 1, 5], mid=[7, 9, 11]),
-    'F': dict(ext=[-0.5, 1.5, 3.0e38], mid=[0.5, 1.5, 2.25]),
+    'F': dict(ext=[-0.5, 1.5, 2.0 ** 127], mid=[0.5, 1.5, 2.25]),
     'O': dict(ext=[None, ('y', 1), 'x'], mid=['x', 'y', 'z']),
     's': dict(ext=[b'\x00' * 6, b'\xff' * 6, b'abcdef'], mid=[b'aaaaaa', b'bbbbbb', b'cccccc']),
 }
